@@ -80,13 +80,19 @@ PHARMPY_KNOWN = {
 # ------------------------------------------------------------------------------------------
 # specs
 
-XFLAGS = ['theta_inf', 'scaled_blocks', 'abbr_replace', 'abbr_opt', 'table', 'table_unsorted', 'cov', 'sizes', 'title_comment', 'block_repeat', 'second_problem']
+XFLAGS = ['theta_inf', 'scaled_blocks', 'abbr_replace', 'abbr_opt', 'table', 'table_unsorted', 'cov', 'sizes', 'title_comment', 'block_repeat', 'second_problem', 'multiline']
 # extra records / shapes of the generated text; each is on in half of the cases, `$ABBR REPLACE` in a quarter
-X = st.fixed_dictionaries({f: (st.sampled_from([False, False, False, True]) if f == 'abbr_replace' else st.booleans()) for f in XFLAGS})
+# `lay`: how the option records at the end ($TABLE, $SUBROUTINES, $ESTIMATION, $COVARIANCE, $SIZES) are spread over lines
+X = st.fixed_dictionaries(
+    dict(
+        {f: (st.sampled_from([False, False, False, True]) if f == 'abbr_replace' else st.booleans()) for f in XFLAGS},
+        lay=st.lists(st.integers(0, 63), min_size=8, max_size=8),
+    )
+)
 MODEL_SPEC = st.one_of(c01.PRED_SPEC, c01.ADVAN_SPEC)
 STREAM_SPEC = st.fixed_dictionaries(dict(m=MODEL_SPEC, x=X, ops=N.OPS))
-# kind of edit (see apply_edit): drawn uniformly, the edits of code records (12-15) twice as often
-EDIT = st.tuples(st.sampled_from(list(range(16)) + [12, 13, 14, 14, 15]), st.integers(0, 40), st.integers(0, 40)).map(list)
+# kind of edit (see apply_edit): drawn uniformly, the edits of code records (12-15) and of $TABLE options (16-19) twice as often
+EDIT = st.tuples(st.sampled_from(list(range(20)) + [12, 13, 14, 14, 15, 16, 16, 17, 18, 19]), st.integers(0, 40), st.integers(0, 40)).map(list)
 FRAME_SPEC = st.fixed_dictionaries(dict(m=MODEL_SPEC, x=X, ops=N.OPS, edit=EDIT))
 
 
@@ -113,6 +119,28 @@ def corpus_text(i):
 
 # ------------------------------------------------------------------------------------------
 # building generated streams
+
+
+def _spread(name, items, lay):
+    """an option record `name items...` over 1-3 lines -> list of lines.  lay: [break1, break2, indent, comments, ...]"""
+    lay = (list(lay) + [0] * 4)[:4]
+    n = len(items)
+    cuts = sorted({1 + lay[0] % n, 1 + lay[1] % n} - {n}) if n > 1 else []
+    if lay[0] % 5 == 0:
+        cuts = cuts[:1]
+    parts = []
+    prev = 0
+    for c in cuts + [n]:
+        parts.append(items[prev:c])
+        prev = c
+    ind = ['', '  ', '\t', '', '      '][lay[2] % 5]
+    out = []
+    for j, part in enumerate(parts):
+        ln = (name + ' ' if j == 0 else ind) + ' '.join(part)
+        if (lay[3] >> j) & 1:
+            ln += [' ; the key columns', ' ;c', '  ; NOPRINT FILE=x'][(lay[3] + j) % 3]
+        out.append(ln)
+    return out
 
 
 def build_stream(spec, pool):
@@ -177,9 +205,24 @@ def build_stream(spec, pool):
     if x.get('cov'):
         tail.append('$COVARIANCE PRINT=E UNCONDITIONAL ; uncertainty')
         used.append('cov')
-    if x.get('table'):
-        tail.append('$TABLE ID TIME DV NOPRINT ONEHEADER FILE=sdtab1 ; first table')
-        if x.get('table_unsorted'):
+    lay = [v if isinstance(v, int) and not isinstance(v, bool) else 0 for v in (x.get('lay') or [])] if isinstance(x.get('lay'), list) else []
+    lay = (lay + [0] * 8)[:8]
+    if x.get('table') or x.get('multiline'):
+        if x.get('multiline'):
+            tail.append('$TABLE ID TIME DV NOAPPEND NOPRINT ONEHEADER FILE=sdtab1 ; first table')
+        else:
+            # (no NOAPPEND: NONMEM appends PRED RES WRES, which pharmpy reads as columns of the table)
+            tail.append('$TABLE ID TIME DV NOPRINT ONEHEADER FILE=sdtab1 ; first table')
+        if x.get('multiline'):
+            # the last table: prediction/residual columns, written over up to three lines, continuation lines with
+            # or without indentation, a comment at the end of any line
+            items = ['ID', 'TIME', 'DV']
+            pool = ['PRED', 'CIPREDI', 'RES', 'WRES', 'CWRES'] + (['IPRED'] if 'IPRED' in b.defs_end else [])
+            items += [c for j, c in enumerate(pool) if (lay[0] >> j) & 1]
+            items += ['NOAPPEND', 'NOPRINT', 'ONEHEADER', 'FILE=patab1'][:: 1] if lay[1] % 4 else ['NOAPPEND', 'NOPRINT', 'FILE=patab1']
+            tail += _spread('$TABLE', items, lay[2:])
+            used.append('table_multiline')
+        elif x.get('table_unsorted'):
             # options pharmpy itself would write in another order / without NOPRINT: switchable shape
             tail.append('$TABLE ID NOAPPEND TIME DV FILE=patab1 ONEHEADER')
             used.append('table_unsorted')
@@ -203,6 +246,15 @@ def build_stream(spec, pool):
             pos = next(i for i, k in enumerate(kd) if k == 'SIGMA')
             lines[pos:pos] = [['$OMEGA BLOCK(3)', ' 0.2 ; IIV_A', ' 0.05 0.2', ' (0.01)x2 0.3  ; covariances, IIV_C'], ['$OMEGA BLOCK(2) (0.1)x2 0.3']][var]
         used.append('block_repeat')
+    if x.get('multiline'):
+        # $SUBROUTINES / $ESTIMATION / $SIZES written over two lines
+        for i, ln in enumerate(lines):
+            nm = S.record_start(ln)
+            if nm and R.canonical_record_name(nm) in ('SUBROUTINES', 'ESTIMATION', 'SIZES') and ';' not in ln:
+                toks = ln.split()
+                if len(toks) >= 3:
+                    lines[i] = '\n'.join(_spread(toks[0], toks[1:], [lay[7] + i, lay[6], lay[5], lay[4], lay[3], lay[2]]))
+        used.append('multiline')
     if lines and lines[-1] == '':
         lines[-1:-1] = tail
     else:
@@ -681,7 +733,7 @@ def apply_edit(model, edit):
     e, a, b = (list(edit) + [0, 0, 0])[:3]
     if not all(isinstance(v, int) and not isinstance(v, bool) for v in (e, a, b)):
         e, a, b = 0, 0, 0
-    kind = e % 16
+    kind = e % 20
     thetas = _thetas(model)
     has_ode = model.statements.ode_system is not None
     first_code = 'PK' if has_ode else 'PRED'
@@ -778,6 +830,34 @@ def apply_edit(model, edit):
     if kind == 11:
         lower = [None, 0.0, -1.0][b % 3]
         return _call(M.add_population_parameter, model, 'POP_NEW', [1.5, 0.25, 3.0][a % 3], lower=lower), 'theta-add', {'THETA', 'SIZES'}, info
+    if kind in (16, 17, 18, 19):
+        # add/remove one prediction or residual column of the output table (public API: estimation_steps.py)
+        if nsteps == 0:
+            raise Reject('no estimation step')
+        step = model.execution_steps[-1]
+        if kind == 16:
+            have = list(step.residuals)
+            if not have:
+                raise Reject('no residuals')
+            info['removed'] = [have[a % len(have)]]
+            return _call(M.remove_residuals, model, info['removed']), 'table-remove-residual', {'TABLE'}, info
+        if kind == 17:
+            have = list(step.predictions)
+            if not have:
+                raise Reject('no predictions')
+            info['removed'] = [have[a % len(have)]]
+            return _call(M.remove_predictions, model, info['removed']), 'table-remove-prediction', {'TABLE'}, info
+        if kind == 18:
+            cand = [c for c in ['RES', 'WRES', 'CWRES'] if c not in step.residuals]
+            if not cand:
+                raise Reject('all residuals present')
+            info['added'] = [cand[a % len(cand)]]
+            return _call(M.add_residuals, model, info['added']), 'table-add-residual', {'TABLE'}, info
+        cand = [c for c in ['PRED', 'CIPREDI'] if c not in step.predictions]
+        if not cand:
+            raise Reject('all predictions present')
+        info['added'] = [cand[a % len(cand)]]
+        return _call(M.add_predictions, model, info['added']), 'table-add-prediction', {'TABLE'}, info
     asg = [(i, s) for i, s in enumerate(model.statements) if hasattr(s, 'expression')]
     ode_i = next((i for i, s in enumerate(model.statements) if not hasattr(s, 'expression')), None)
     if kind == 12:
@@ -934,6 +1014,71 @@ def check_param_records(before, after, label, kind, owner_index, item=None, one_
     return 'checked'
 
 
+_OPT = re.compile(r'\([^)]*\)|[^\s\x00=;()]+(?:[ \t\x00]*=[ \t\x00]*(?:\([^)]*\)|[^\s\x00=;()]+))?')
+MOVED_BY_SORT = ('NOAPPEND', 'NOPRINT', 'ONEHEADER', 'FILE')  # update.py::sort_table writes these last (known finding: reordering)
+
+
+def option_lines(chunk):
+    """an option record -> (list of lines, each the list of its option tokens outside comments; comments in order)"""
+    lines, coms = [], []
+    for i, ln in enumerate(S.split_lines(chunk)):
+        code, com = S.comment_split(ln)
+        if com is not None:
+            coms.append(com)
+        if i == 0:
+            code = re.sub(r'^[ \t]*\$[A-Za-z]*', '', code)
+        lines.append([re.sub(r'[ \t\x00]+', '', t).upper() for t in _OPT.findall(code)])
+    return lines, coms
+
+
+def check_table_record(before, after, label, removed, added, model, after_model):
+    """an edit that removes/adds columns of the output table: every other token of the record -- options, comments,
+    which options share a line -- stays; what the written record says is what the edited model says"""
+    rb, ra = records_of(before, 'TABLE'), records_of(after, 'TABLE')
+    if not rb:
+        return 'table-created'
+    if len(rb) != len(ra):
+        raise Violation(f'{label}:TABLE:record-count-changed', observed=ra, expected=rb)
+    for i, (x, y) in enumerate(zip(rb, ra)):
+        if i != len(rb) - 1 and x != y:
+            raise Violation(f'{label}:TABLE:other-table-changed', observed=y, expected=x)
+    x, y = rb[-1], ra[-1]
+    lb, cb = option_lines(x)
+    la, ca = option_lines(y)
+    show = f'removed {removed} added {added}\n--- before\n{x}\n--- after\n{y}'
+    if cb != ca:
+        raise Violation(f'{label}:TABLE:comment-changed', observed=ca, expected=cb, detail=show)
+    fb = [t for ln in lb for t in ln]
+    fa = [t for ln in la for t in ln]
+    expected = [t for t in fb if t not in removed] + list(added)
+    lost = [t for t in set(expected) if fa.count(t) < expected.count(t)]
+    extra = [t for t in set(fa) if fa.count(t) > expected.count(t)]
+    if lost:
+        raise Violation(f'{label}:TABLE:option-lost', observed=' '.join(fa), expected=' '.join(expected), detail=f'{sorted(lost)} no longer among the options (outside comments) ' + show)
+    if extra:
+        raise Violation(f'{label}:TABLE:option-added', observed=' '.join(fa), expected=' '.join(expected), detail=f'{sorted(extra)} ' + show)
+
+    def fixed(t):
+        return t not in removed and t not in added and t.split('=')[0] not in MOVED_BY_SORT
+
+    pb = [[t for t in ln if fixed(t)] for ln in lb]
+    pa = [[t for t in ln if fixed(t)] for ln in la]
+    if [t for ln in pb for t in ln] != [t for ln in pa for t in ln]:
+        raise Violation(f'{label}:TABLE:option-order-changed', observed=pa, expected=pb, detail=show)
+    if [ln for ln in pb if ln] != [ln for ln in pa if ln]:
+        raise Violation(f'{label}:TABLE:line-structure-changed', observed=pa, expected=pb, detail='options that were not touched no longer share the same lines ' + show)
+    if split_problems(record_list(before))[1]:
+        return 'table-checked'  # (the table pharmpy edits belongs to the last $PROBLEM: judged by the second-problem clause)
+    # what the written stream says == what the model says
+    reread = read_model(after)
+    for attr in ('predictions', 'residuals'):
+        want = sorted(getattr(after_model.execution_steps[-1], attr))
+        got = sorted(getattr(reread.execution_steps[-1], attr)) if len(reread.execution_steps) else None
+        if got != want:
+            raise Violation(f'{label}:TABLE:reread-{attr}-differ', observed=got, expected=want, detail=show)
+    return 'table-checked'
+
+
 def theta_owner(text, k):
     """(record index, item index within it) of the k-th theta (0-based) according to the reference parser"""
     pos = 0
@@ -982,6 +1127,7 @@ FAMILY = {
     'theta-init': 'theta', 'theta-fix': 'theta', 'theta-unfix': 'theta', 'theta-lower': 'theta', 'theta-upper': 'theta', 'theta-add': 'theta-add',
     'omega-init': 'omega', 'omega-fix': 'omega', 'omega-unfix': 'omega', 'sigma-init': 'sigma', 'sigma-fix': 'sigma', 'sigma-unfix': 'sigma',
     'description': 'description', 'name': 'name', 'est-maxeval': 'est', 'est-add': 'est', 'est-remove': 'est', 'cov-add': 'cov', 'cov-remove': 'cov',
+    'table-remove-residual': 'table', 'table-remove-prediction': 'table', 'table-add-residual': 'table', 'table-add-prediction': 'table',
     'add-iiv': 'add-iiv', 'remove-iiv': 'remove-iiv', 'add-individual-parameter': 'add-individual-parameter',
 }
 
@@ -1022,10 +1168,14 @@ def check_frame(text, model, edit, corpus=False):
             may.add(which)
             classes.append(f'{which.lower()}-changed-with-edit')
     try:
+        res = None
+        if family == 'table':
+            # first: known findings about other records ($COVARIANCE is regenerated with every step change) must
+            # not hide what happens inside the table
+            res = check_table_record(text, after, label, info.get('removed', []), info.get('added', []), model, after_model)
         frame_condition(text, after, may, label)
         if check_code_records(text, after, label):
             classes.append('code-record-checked')
-        res = None
         if family == 'theta':
             own = theta_owner(text, info['theta'])
             if own is not None:
